@@ -249,6 +249,37 @@ def verifyMerkleProof (K : Bytes → Bytes) (vp : Bytes → Bytes → List Bytes
           if acctRlp ≠ acctRes.bytes then .error .acctMismatch else verifyStorage K vp p storageHash
       | _, _ => .error .number
 
+/-- The decision chain shared by every go-ethereum-trie router, over the two facts a router reads from its header
+store: the head number (`none`: the store cannot be read) and the state root of the main-chain header at `height`
+(`none`: no such header). The eth router obtains them with `GetCurrentHeader` / `GetHeaderByHeight`; the bsc, heco,
+hsc, msc, pixiechain, polygon and bytom routers with `GetCanonicalHeight` / `GetCanonicalHeader`. -/
+def verifyDeposit (K : Bytes → Bytes) (vp : Bytes → Bytes → List Bytes → VpRes)
+    (bestNumber : Option Nat) (blockRoot : Option Bytes) (blocksToWait height : Nat) (ccmc : Bytes)
+    (proof : Option EthProof) (extra : Bytes) : Except Reject TxParam :=
+  match bestNumber with
+  | none => .error .noHead
+  | some best =>
+    if notConfirmed best blocksToWait height then .error .notConfirmed
+    else
+      match blockRoot with
+      | none => .error .noHeader
+      | some rt =>
+        match proof with
+        | none => .error .json
+        | some p =>
+          if p.storageProofs.length ≠ 1 then .error .format
+          else
+            match verifyMerkleProof K vp p rt ccmc with
+            | .error e => .error e
+            | .ok .err => .error .storProof
+            | .ok .absent => .error .absent
+            | .ok (.val v) =>
+              if !checkProofResult v (K extra) then .error .valueHash
+              else
+                match decodeTxParam extra with
+                | none => .error .decode
+                | some param => .ok param
+
 /-- `verifyFromEthTx(native, proof, extra, fromChainID, height, sideChain)` over the light-client store `s`
 (`root` projects the state root out of a stored header); `proof = none` is a JSON error. -/
 def verifyFromEthTx (K : Bytes → Bytes) (vp : Bytes → Bytes → List Bytes → VpRes) (root : Hdr H R → Bytes)
